@@ -221,8 +221,8 @@ def io_recv_cfg(msg, nmsgs, chunk, faults, policy, record, arbitrary=False, rawl
     txt += "CHECK_DEADLOCK FALSE\n"
     return {"type": "tlc-only" if not record else "tlc-replay", "module": "MCIoRecv", "cfg": name, "cfg_text": txt, "io_traces": record, "io_traces_limit": 300}
 
-def io_send_cfg(msg, nmsgs, chunk, faults, retry, record, live=False):
-    name = "MCIoSend_%s_n%d_c%d_f%d_r%d%s.cfg" % (msg, nmsgs, chunk, faults, retry, "_live" if live else "")
+def io_send_cfg(msg, nmsgs, chunk, faults, retry, record, live=False, abandon=1):
+    name = "MCIoSend_%s_n%d_c%d_f%d_r%d%s%s.cfg" % (msg, nmsgs, chunk, faults, retry, "_a%d" % abandon if abandon else "", "_live" if live else "")
     txt = "SPECIFICATION %s\n" % ("SpecP" if record else "Spec") + IO_BASE + """  MsgId = "%s"
   NMsgs = %d
   MsgT <- MT
@@ -230,12 +230,13 @@ def io_send_cfg(msg, nmsgs, chunk, faults, retry, record, live=False):
   ChunkMax = %d
   FaultMax = %d
   Retry = %d
+  AbandonMax = %d
   ErrKinds = %s
   Record = %s
-""" % (msg, nmsgs, chunk, faults, retry, ERRKINDS if record else '{"Other"}', "TRUE" if record else "FALSE")
+""" % (msg, nmsgs, chunk, faults, retry, abandon, ERRKINDS if record else '{"Other"}', "TRUE" if record else "FALSE")
     if record:
         txt += "VIEW View\n"
-    txt += "INVARIANTS SinkFramed BoundedCalls PoisonedStops\n"
+    txt += "INVARIANTS SinkFramed BoundedCalls PoisonedStops\nPROPERTY AbandonSilent\n"
     if live:
         txt += "PROPERTY Terminates\n"
     txt += "CHECK_DEADLOCK FALSE\n"
@@ -277,12 +278,12 @@ def io_plan(level_text, rule, must, quick, thorough):
 IO_TEXT = ("IoRecv / IoSend are explicit TLA+ state machines of the framed IO algorithms, one action per pipe call or window mutation, whose Validate and Size are the codec specification's. "
            "TLC checks WindowInv, HeadInv (nothing lost/duplicated/reordered by compaction), GuardInside, DeliveredInOrder, ClosedMeansAll, BoundedCalls, ParseNotStarve, SinkFramed, PoisonedStops in every state for every chunking / fault placement, "
            "and termination under fairness on the permissive (any-policy) instance; the code-policy instance prints the environment script of every generated transition, which is replayed into the real blocking Sender / Receiver over scripted pipes (and the async ones over pipes that never, or once per call, answer Pending). "
-           "RecvGuard::retain and early end-of-stream are actions of the receiver; IoRecv is checked to refine the integer window machine IoWindow, whose invariant Apalache shows inductive for every capacity. "
+           "RecvGuard::retain and early end-of-stream are actions of the receiver, a SendGuard dropped without send() (Abandon: no pipe call, nothing in the sink, the next message unaffected) is an action of the sender; IoRecv is checked to refine the integer window machine IoWindow, whose invariant Apalache shows inductive for every capacity. "
            "In the other direction every replayed run of the real receiver and sender is recorded (window hooks of the cargo feature `verif`, pipe calls with the bytes offered / delivered, returns) and TLC validates the records against TraceIoRecv / TraceIoSend.")
 
 PLANS.update({
     "C07": io_plan(IO_TEXT, "one path per generated transition of the fault-free receiver and sender models (every composition of the stream into read / write chunk sizes up to ChunkMax, message sets rotated so every message is first/middle/last); non-trivial = all",
-                   ["iorecv.valid.*", "iosend.*"],
+                   ["iorecv.valid.*", "iosend.*", "iosend.abandon"],
                    [io_recv_cfg("UE6", 3, 24, 0, "any", False, live=True), io_send_cfg("UE6", 3, 12, 0, 0, False, live=True)]
                    + [io_recv_cfg(m, n, c, 0, "code", True) for m, n, c in [("UE6", 3, 24), ("US2", 2, 16), ("V_u8_u32", 2, 16), ("X_vu8_u8", 2, 8)]]
                    + [io_recv_cfg("UE6", 3, 12, 0, "code", True, cap=c) for c in (0, 4, 12)]      # capacities down to the largest message
@@ -294,7 +295,7 @@ PLANS.update({
                    + [io_recv_cfg(m, n, c, 0, "code", True) for m, n, c in [("UE6", 4, 24), ("US2", 3, 16), ("US1", 2, 48), ("V_u8_u32", 3, 16), ("X_vu8_u8", 3, 8), ("UE1", 3, 16), ("SS1", 2, 48)]]
                    + [io_send_cfg(m, 3, 16, 0, 0, True) for m in ["UE6", "US2", "US1", "X_vu8_u8", "UE1", "V_u8_u32"]]),
     "C09": io_plan(IO_TEXT, "paths of the receiver model with injected transient read errors / end of stream at every call, and of the sender model with write errors, zero-length writes (transient and persistent) at every call; non-trivial = paths containing at least one fault",
-                   ["iorecv.valid.*.faults", "iosend.*.faults"],
+                   ["iorecv.valid.*.faults", "iosend.*.faults", "iosend.abandon"],
                    [io_recv_cfg("UE6", 2, 8, 1, "any", False, live=True), io_send_cfg("UE6", 3, 12, 2, 1, False, live=True)]
                    + [io_recv_cfg(m, 2, 8, 1, "code", True) for m in ["UE6", "US2"]]
                    + [io_send_cfg(m, 3, 12, 2, 0, True) for m in ["UE6", "US2", "X_vu8_u8"]],
